@@ -131,7 +131,10 @@ func (t *Term) print(sb *strings.Builder, ren *renamer) {
 		// confused, even when they merge the same operands
 		sb.WriteString("Phi")
 		if ren.key && t.V != nil {
+			// the id names the merge; its operands would be printed differently depending on
+			// where a cyclic description was entered, and keys must not depend on that
 			fmt.Fprintf(sb, "#%d", ren.id("phi", t.V, t.Ctx))
+			break
 		}
 		sb.WriteString("(")
 		args(", ")
@@ -212,6 +215,7 @@ type TB struct {
 	activeDepth map[ssa.Value]int
 	cycleTo     int
 	loadID      map[ssa.Value]int
+	edgeSys     map[any]*dsys // bounds: constraint systems per CFG edge
 	nextEpoch   int
 	depth       int
 	stack       []*ssa.Function
